@@ -13,7 +13,15 @@
      ismarkeridx <hex>  -> M <name> <after> | PANIC
    the model's own property statements, in executable form (TxtarHolds.v):
      holds <hex>        -> true|false   (c03_holds_on)
-     holds14 <hex>      -> true|false   (c14_holds_on) *)
+     holds14 <hex>      -> true|false   (c14_holds_on)
+   rune level (Lib/Utf8.v) next to the byte level (Lib/Bytes.v):
+     u8 <hex>           -> D <r> <w>|L <r> <w>|TL <hex>|TR <hex>|T <hex>|TB <hex>|V <bool>|VB <bool>
+                           (DecodeRune, DecodeLastRune, TrimLeftFunc, TrimRightFunc, TrimSpace by runes,
+                            trim_space of Bytes.v, runes_ok, utf8_valid of Bytes.v)
+     u8sweep <hex> <n>  -> md5 of the u8 lines of all strings <hex> ++ (n arbitrary bytes), n = 1|2,
+                           in increasing order, each line followed by \n
+     spaces <lo> <hi>   -> the code points r in [lo,hi) with is_space_rune r, separated by ','
+     encode <r>         -> <hex> (encode_rune) and is_scalar: S <bool> <hex> *)
 let show_archive (a : archive) =
   String.concat " " ("A" :: hex_of_bytes a.comment :: string_of_int (List.length a.files) ::
     List.concat_map (fun (n, d) -> [hex_of_bytes n; hex_of_bytes d]) a.files)
@@ -28,7 +36,38 @@ let show_res show = function Ok a -> show a | Panic -> "PANIC" | OutOfFuel -> "O
 let show_mres = function
   | MRes (n, a) -> "M " ^ hex_of_bytes n ^ " " ^ hex_of_bytes a
   | MPanic -> "PANIC"
+let show_dec = function
+  | Some (r, w) -> string_of_int (int_of_n r) ^ " " ^ string_of_int (int_of_nat w)
+  | None -> "none"
+(* table-driven hex (the sweeps format millions of short strings) *)
+let hex_tab = Array.init 256 (fun i -> Printf.sprintf "%02x" i)
+let fast_hex (l : byte list) : string =
+  if l = [] then "-" else String.concat "" (List.map (fun x -> hex_tab.(int_of_byte x)) l)
+let u8_line (x : byte list) =
+  let hex_of_bytes = fast_hex in
+  String.concat "|" [
+    "D " ^ show_dec (decode_rune x); "L " ^ show_dec (decode_last_rune x);
+    "TL " ^ hex_of_bytes (trim_left_runes x); "TR " ^ hex_of_bytes (trim_right_runes x);
+    "T " ^ hex_of_bytes (trim_space_runes x); "TB " ^ hex_of_bytes (trim_space x);
+    "V " ^ string_of_bool (runes_ok x); "VB " ^ string_of_bool (utf8_valid x) ]
+let u8_sweep (pre : byte list) (n : int) =
+  let b = Buffer.create (1 lsl 20) in
+  let add x = Buffer.add_string b (u8_line x); Buffer.add_char b '\n' in
+  if n = 1 then
+    for i = 0 to 255 do add (pre @ [byte_of_int i]) done
+  else
+    for i = 0 to 255 do for j = 0 to 255 do add (pre @ [byte_of_int i; byte_of_int j]) done done;
+  Digest.to_hex (Digest.string (Buffer.contents b))
+let spaces lo hi =
+  let acc = ref [] in
+  for r = hi - 1 downto lo do if is_space_rune (n_of_int r) then acc := string_of_int r :: !acc done;
+  if !acc = [] then "-" else String.concat "," !acc
 let () = serve (function
+  | ["u8"; x] -> u8_line (bytes_of_hex x)
+  | ["u8sweep"; x; n] -> u8_sweep (bytes_of_hex x) (int_of_string n)
+  | ["spaces"; lo; hi] -> spaces (int_of_string lo) (int_of_string hi)
+  | ["encode"; r] -> let r = n_of_int (int_of_string r) in
+      "S " ^ string_of_bool (is_scalar r) ^ " " ^ hex_of_bytes (encode_rune r)
   | ["parseidx"; x] -> show_res show_archive (parse_idx (bytes_of_hex x))
   | ["needsquoteidx"; x] -> show_res string_of_bool (needs_quote_idx (bytes_of_hex x))
   | ["ismarkeridx"; x] -> show_mres (is_marker_idx (bytes_of_hex x))
